@@ -326,3 +326,40 @@ Theorem c10_source2_get_fail_via_policy_get :
       = PBool (get_fail (applicable p sp (if store then ra else None))).
 Proof. exact src2_get_fail_via_policy_get. Qed.
 Print Assumptions c10_source2_get_fail_via_policy_get.
+
+(* ---- round 5: the subject-id requirement (entity attribute subject-id:req) and the requester's own listing of
+   that identifier.  Every subject-id requirement is among the REQUIRED attributes the release is judged by -
+   itself or an equal dict that the requester lists as required (or another subject-id requirement); a listing
+   as optional never stands in for it *)
+Theorem c10_subject_id_requirement_is_required : forall m r,
+  In r (subj_reqs m) ->
+  exists r', In r' (eff_required (Some m)) /\ reqattr_eqb r r' = true /\ In r' (md_required m ++ subj_reqs m).
+Proof. exact subject_id_requirement_is_required. Qed.
+Print Assumptions c10_subject_id_requirement_is_required.
+
+(* merging the requirement in drops nothing the requester requires and invents nothing *)
+Theorem c10_required_merge_exact : forall m r,
+  (In r (md_required m) -> In r (eff_required (Some m)))
+  /\ (In r (eff_required (Some m)) -> In r (md_required m) \/ In r (subj_reqs m)).
+Proof. intros m r. split; [apply add_subj_keeps|apply add_subj_only]. Qed.
+Print Assumptions c10_required_merge_exact.
+
+(* the requester's metadata ask for a subject identifier the user cannot supply, failing is in effect, no entity
+   categories decide: an error at every entry point that reads the requester's metadata (Policy.restrict,
+   Assertion.apply_policy, the Server), whatever the AttributeConsumingService says about that identifier *)
+Theorem c10_subject_id_requirement_enforced : forall rmatch ectab x m r,
+  i_md x = Some m ->
+  (match i_entry x with ERestrict _ | EApply _ | EServer _ => True | _ => False end) ->
+  ~ ec_in_force ectab (flat x) -> fail_flag (flat x) = true ->
+  In r (subj_reqs m) ->
+  (forall r', In r' (md_required m ++ subj_reqs m) -> reqattr_eqb r r' = true -> unsuppliable (i_ident x) r') ->
+  forall out, o_out (run rmatch ectab x) <> Ok out.
+Proof. exact subject_id_requirement_enforced. Qed.
+Print Assumptions c10_subject_id_requirement_enforced.
+
+(* a duplicate test by Name against everything the requester lists (required and optional) loses the requirement *)
+Theorem c10_subject_id_dedup_by_name_refuted : exists m r,
+  In r (subj_reqs m) /\ ~ In r (add_subj_by_name (md_required m) (md_optional m) (subj_reqs m))
+  /\ In r (eff_required (Some m)).
+Proof. exact dedup_by_name_refuted. Qed.
+Print Assumptions c10_subject_id_dedup_by_name_refuted.
